@@ -158,6 +158,17 @@ void __wrap_channel_accept_writes(struct channel* self, uint32_t tf)
     __real_channel_accept_writes(self, tf);
     printf("W s%d %s accept %u\n", s, nm, tf);
 }
+/* video_sink_start refuses (before touching the device) when the storage is not Armed -- the stream is still running:
+   make that visible in the log */
+enum DeviceStatusCode __real_video_sink_start(struct video_sink_s* self);
+enum DeviceStatusCode __wrap_video_sink_start(struct video_sink_s* self)
+{
+    const int before = (self && self->storage) ? (int)self->storage->state : -1;
+    enum DeviceStatusCode r = __real_video_sink_start(self);
+    if (r != Device_Ok && before != (int)DeviceState_Armed)
+        printf("H s%d sink start refused state=%d\n", self ? (int)self->stream_id : -1, before);
+    return r;
+}
 static const char* reader_name(struct channel* c, struct channel_reader* r, int s)
 {
     if (s >= 0 && c == g_sink_in[s]) return r == &g_sink[s]->reader ? "sink" : "mon";
